@@ -73,6 +73,17 @@ PROPS = {
         'not_decided': ['that all completion orders give the same values (a whole-build, all-schedules statement)', 'data-race freedom in general, deadlock',
                         'the other phases of executeTasks (input requests, finished inputs, ready, finished tasks, cycle resolution)'],
     },
+    'C07': {
+        'units': ['engine_cycle', 'engine_cancel'],
+        'design_ref': 'DESIGN.md section 4, C07',
+        'claim': 'trigger and reporting only: the engine looks for a cycle only when a whole round of its loop did nothing, no task is still computing '
+                 '(the blocking step before it forces another round whenever completions are owed) and tasks are nevertheless pending; it never '
+                 'finishes a build as successful while tasks are pending; an unbreakable cycle fails the build after draining, a broken one lets the loop '
+                 'continue; resolveCycle searches under both locks, offers exactly the cycle found for breaking and reports exactly that cycle to the '
+                 'delegate iff it could not be broken',
+        'not_decided': ['that the rule list found is a real dependency cycle starting at the build key (findCycle: 120 lines over five hash containers, assumed)',
+                        'the cycle-breaking heuristics (breakCycle), cycles among rules that are only being scanned', 'liveness: that a real cycle always stalls the loop'],
+    },
     'C08': {
         'units': ['extcmd', 'fileinfo'],
         'design_ref': 'DESIGN.md section 4, C08',
@@ -204,7 +215,4 @@ PROPS = {
 }
 
 NOT_APPLICABLE = {
-    'C07': 'half of the property is liveness (never stalls); the accuracy half lives in findCycle, a 120-line function over '
-           'five hash containers whose contract could only speak about the map the function itself builds; a faithful '
-           'contract is out of reach of cbmc on translated C (DESIGN.md section 1)',
 }
